@@ -26,7 +26,8 @@ Inductive eclass :=
 (* stream package *)
 | EEOF | EUnexpEOF  (* io.EOF / io.ErrUnexpectedEOF *)
 | EFault            (* the error returned by the underlying reader *)
-| ENegLen           (* negative size (uint64 prefix >= 2^63) *)
+| ENegLen           (* stream.ReadBytes called with a negative length *)
+| ESizeRange        (* stream.sizeToInt: a uint64 length prefix >= 2^63 does not fit int (c8478d2) *)
 | EConsumed         (* callback consumed <> bytes read *)
 | EOther.
 
